@@ -27,11 +27,13 @@ Decides (static, on type-checked MIR of every autocomplete configuration):
                        starts with a dash is otherwise read as an option).
  T12 untruncated   no format placeholder in the completion modules carries a precision (candidates and descriptions are never cut).
  T13 descr         zsh: every `compadd .. -d descr` line of the candidate loop follows the `descr=(..)` assignment made for the same candidate.
+ T14 bash appends   every render_bash directive that mentions COMPREPLY appends to it (`+=`).
 Does not decide: that sourcing the text in a real shell has no other effect."""
 import re
 from core import *
 from dataflow import *
 from cfgq import fn_refs, switch_on_call, switches, Switch, reachable_edges
+from parsers import short
 
 LEVEL = 'other'
 EXPLANATION = __doc__
@@ -40,7 +42,7 @@ ASSUMPTIONS = [
     'ShellComp::Raw strings and &\'static constants are supplied by the developer, not by the user at completion time',
     'shell semantics: text inside single quotes with \' -> \'\\\'\' is data for bash and zsh',
 ]
-FLOORS = {'T1.typed-quoting': 19, 'T2.newline': 23, 'T3.accumulator': 6, 'T4.coverage': 12, 'T5.escaper': 4, 'T6.dispatch': 5, 'T7.stubs': 8, 'T8.line-protocol': 2, 'T9.once': 4, 'T10.completers': 4, 'T11.operands': 5, 'T12.untruncated': 1, 'T13.descr': 1}
+FLOORS = {'T1.typed-quoting': 19, 'T2.newline': 23, 'T3.accumulator': 6, 'T4.coverage': 12, 'T5.escaper': 4, 'T6.dispatch': 5, 'T7.stubs': 8, 'T8.line-protocol': 2, 'T9.once': 4, 'T10.completers': 4, 'T11.operands': 5, 'T12.untruncated': 1, 'T13.descr': 1, 'T14.bash-appends': 1}
 
 RENDERERS = ['render_zsh', 'render_bash', 'render_fish', 'render_simple']
 INT_TYPES = {'usize', 'u8', 'u16', 'u32', 'u64', 'u128', 'isize', 'i8', 'i16', 'i32', 'i64', 'i128'}
@@ -84,6 +86,7 @@ def run(ctx):
         ctx.guard(t11_operands, ctx, cfg, fs, bodies)
         ctx.guard(t12_untruncated, ctx, cfg, fs)
         ctx.guard(t13_descr_fresh, ctx, cfg, fs, bodies)
+        ctx.guard(t14_bash_appends, ctx, cfg, fs, bodies)
         import c14, c08
         ctx.guard(c08.keep_only, ctx, lambda: c14.no_late_none(ctx, cfg, fs), lambda o: True, 'T6.dispatch')
 
@@ -133,6 +136,20 @@ def t13_descr_fresh(ctx, cfg, fs, bodies):
     ctx.ob('T13.descr', 'render_zsh:descr-assigned-for-every-candidate-shown', bool(sets) and not bad,
            'render_zsh: %d line(s) display `descr`, %d line(s) assign it: %s' % (len(uses), len(sets), sorted(set(bad)) or 'every display follows the assignment made for the same candidate'), where=b.where(), cfg=cfg)
 
+def t14_bash_appends(ctx, cfg, fs, bodies):
+    """bash: the reply is built by several directives - the shell completers (`_filedir ..`, which APPEND to COMPREPLY) come first, the
+    candidates after them.  "Sourcing the output can only ADD candidates": every directive that mentions COMPREPLY appends (`+=`);
+    a plain assignment throws away what the completer before it produced."""
+    n = 0; bad = []
+    for body in fs.family(bodies['render_bash']):
+        for s_ in fmt_sites(body):
+            t = s_.text()
+            for m in re.finditer(r'COMPREPLY(.?.?)', t):
+                n += 1
+                if not m.group(1).startswith('+='):
+                    bad.append('%r at %s' % (t, s_.where()))
+    ctx.ob('T14.bash-appends', 'render_bash:COMPREPLY-only-appended', n >= 3 and not bad, 'render_bash mentions COMPREPLY in %d template(s); each one appends: %s' % (n, bad or 'ok'), where=bodies['render_bash'].where(), cfg=cfg)
+
 def t12_untruncated(ctx, cfg, fs):
     """a candidate (and its description) reaches the shell whole: no format placeholder in the completion modules carries a precision
     (`{:.N}` truncates the text to N characters - padding with a width is harmless)."""
@@ -169,22 +186,30 @@ LINE_ORIENTED = ('render_fish', 'render_simple')
 def t8(ctx, cfg, fs, bodies):
     """fish and elvish read the answer line by line: one line = one candidate (value TAB description).  A description
     can come from a user closure and contain line breaks, so what is written after the TAB must be cut at the
-    first line break (typed-quoting renderers wrap the text in Shell(..) instead and are not line oriented)."""
-    CUT = DEFAULT_THROUGH + [r'Option::<.*>::(unwrap_or|unwrap_or_default|as_deref)$', r'as std::ops::Try>::branch$']
+    FIRST line break (typed-quoting renderers wrap the text in Shell(..) instead and are not line oriented).  The description is
+    the placeholder that follows the TAB in the template; accepted cuts: the first element of a forward split / lines iterator, or
+    the front half of `split_once` - not of `rsplit_once`, which cuts at the LAST break."""
+    CUT = DEFAULT_THROUGH + [r'Option::<.*>::(unwrap_or|unwrap_or_default|as_deref|map_or|map_or_else|map)$', r'as std::ops::Try>::branch$']
     for r in LINE_ORIENTED:
         n = 0
         for body in fs.family(bodies[r]):
             for s in fmt_sites(body):
-                for (meth, T, op, abb) in s.args:
-                    rs = provenance(body, op, abb, 'term', through=CUT)
-                    cut = [q for q in rs if q.kind == 'call' and q.call.is_(r'Iterator>?::next$') and re.search(r'str::(Split|Lines|SplitTerminator|SplitN)', q.call.full)]
-                    raw_help = [q for q in rs if q not in cut and 'help' in q.path]
-                    helpish = raw_help or any(q.kind == 'call' and 'help' in str([z.path for z in provenance(body, q.call.args[0], q.call.bb, 'term', through=CUT + [r'str::<impl str>::(split|lines|splitn|split_terminator)'])]) for q in cut)
-                    if not helpish:
+                seen_tab = False
+                for pc in s.pieces:
+                    if pc[0] == 'lit':
+                        seen_tab = seen_tab or '\t' in pc[1]
                         continue
+                    if not seen_tab or pc[1] is None or pc[1] >= len(s.args):
+                        continue
+                    (meth, T, op, abb) = s.args[pc[1]]
+                    rs = provenance(body, op, abb, 'term', through=CUT)
+                    good = [q for q in rs if q.kind == 'call' and ((q.call.is_(r'Iterator>?::next$') and re.search(r'str::(Split|Lines|SplitTerminator|SplitN|SplitInclusive)<', q.call.full) and not re.search(r'str::R(Split|SplitN|SplitTerminator)<', q.call.full))
+                                                                  or q.call.is_(r'str>?::split_once(::<.*>)?$'))]
+                    bad = [q for q in rs if q not in good]
                     n += 1
-                    ctx.ob('T8.line-protocol', '%s:description-first-line-only' % r, bool(cut) and not raw_help,
-                           '%s writes the description into the line template %r %s' % (r, s.text(), 'after cutting it at the first line break' if (cut and not raw_help) else 'as it is: a line break inside it starts a new candidate line'),
+                    ctx.ob('T8.line-protocol', '%s:description-first-line-only' % r, bool(good) and not bad,
+                           '%s writes the description into the line template %r %s' % (r, s.text(), 'after cutting it at the first line break' if (good and not bad) else
+                                                                                     'not cut at its FIRST line break (%s): a line break inside it starts a new candidate line' % sorted({(short(q.call.name) if q.kind == 'call' else q.kind) for q in bad})),
                            where=s.where(), cfg=cfg)
         if n == 0:
             ctx.ob('T8.line-protocol', '%s:description-first-line-only' % r, True, '%s writes no description' % r, cfg=cfg, nontrivial=False)
